@@ -14,11 +14,13 @@
 -/
 namespace AJ.Run
 
-/-- identity of a raised exception object: raised by the body of job `j`, or the `TimeoutError`
-    created by scheduler `s` -/
+/-- identity of a raised exception object: raised by the body of job `j`, the `TimeoutError`
+    created by scheduler `s`, or the exception raised by the orchestration code of scheduler `s` itself
+    (`_co_run()` failing half-way, e.g. a verbose message that cannot be printed) -/
 inductive Exc
   | byJob (j : Nat)
   | tmo (s : Nat)
+  | orch (s : Nat)
   deriving DecidableEq, Repr, Inhabited
 
 /-- how a task finished: it returned its own object (atomic job), a boolean (scheduler), or raised -/
